@@ -1,38 +1,164 @@
 """C09 - half math functions: the exactly specifiable part.
 
 Decided here (TLA+ oracle specs/Half.tla, evaluated by TLC on every recorded evaluation):
-  * ceil floor trunc round rint nearbyint lround lrint llround llrint frexp modf ilogb logb on all 65 536 halves;
-    ldexp/scalbn/scalbln on halves x exponents; nextafter, nexttoward (long double targets one long-double ulp
-    around each half), fmod, remainder, remquo, fdim, fmax, fmin on the grid S x S; hypot correctly rounded on a sub-grid;
+  * ceil floor trunc round rint nearbyint lround lrint llround llrint frexp modf ilogb logb and cbrt (correctly rounded, by
+    wide-integer cubes) on all 65 536 halves; ldexp/scalbn/scalbln on halves x exponents; nextafter, nexttoward (long double
+    targets one long-double ulp around each half), fmod, remainder, remquo, fdim, fmax, fmin on the grid S x S, on the special
+    operands among themselves and on one witness pair per case of the oracle's case analysis (specs/HalfCases.tla); hypot of two
+    and of three arguments correctly rounded on sub-grids;
   * the C99 Annex F special cases (NaN, +-inf, +-0, domain and pole errors) of every other function, on all 65 536
     halves (unary) and on S x S (atan2, pow, hypot), plus the arguments whose mathematical result is itself a half
-    (exp2 of integers, log2 of powers of two, log10 of powers of ten, cbrt of cubes), which "exact to rounding" forces.
+    (exp2 of integers, log2 of powers of two, log10 of powers of ten), which "exact to rounding" forces;
+  * all of the above once more while the calling thread's rounding direction is upward / downward / toward zero (the functions
+    are integer algorithms; rint, nearbyint, lrint, llrint - which C defines to follow the direction and the library documents as
+    following its own, fixed, mode - may answer either way there).
 NOT decided: correct rounding / 1-ulp bounds of the transcendental functions on ordinary arguments (no reals, no
 arbitrary precision in TLA+/TLC) - the MANIFEST claim says so.
 """
-import threading
+import os, random, threading
 from vlib import core, halfgrid as hg
 from vlib.core import MachineryError
 
-ROUND = ["ceil", "floor", "trunc", "round", "rint", "nearbyint", "lround", "lrint", "llround", "llrint", "frexp", "modf", "ilogb", "logb"]
+ROUND = ["ceil", "floor", "trunc", "round", "rint", "nearbyint", "lround", "lrint", "llround", "llrint", "frexp", "modf", "ilogb", "logb", "cbrt_full"]
 TRANS = ["exp", "exp2", "expm1", "log", "log10", "log2", "log1p", "cbrt", "sin", "cos", "tan", "sincos", "asin", "acos", "atan",
          "sinh", "cosh", "tanh", "asinh", "acosh", "atanh", "erf", "erfc", "lgamma", "tgamma"]
 BIN = ["fmod", "remainder", "remquo", "fdim", "fmax", "fmin", "nextafter", "atan2", "pow", "hypot"]
+BIN_EXACT = ["fmod", "remainder", "remquo", "fdim", "fmax", "fmin", "nextafter"]
 
 
 def exponents():
     return list(range(-50, 51)) + [-2147483647, 2147483647, -100000, 100000, -1000, 1000, 64, -64]
 
 
-def make_jobs(ctx):
+def hypot3_triples(seed, quick):
+    """x, y, z for hypot(x, y, z): a small structured grid cubed (zeros, infinities, NaNs, extremes included), triples of nearby
+    exponents (all three terms contribute to the rounding), two nearby and one far below (sticky), random."""
+    rnd = random.Random(seed * 4409 + 1)
+    G = hg.small_grid(seed, 30 if quick else 44, salt=5)
+    X, Y, Z = [], [], []
+    for a in G:
+        for b in G:
+            for c in G:
+                X.append(a); Y.append(b); Z.append(c)
+    for _ in range(30000 if quick else 300000):
+        t = rnd.random()
+        e = rnd.randrange(0, 31)
+
+        def near(spread):
+            return (min(30, max(0, e + rnd.randrange(-spread, spread + 1))) << 10) | rnd.choice([rnd.getrandbits(10), 0, 0x3FF, 1, 0x200]) | (rnd.getrandbits(1) << 15)
+        if t < 0.5:
+            x, y, z = near(2), near(2), near(2)
+        elif t < 0.8:
+            x, y, z = near(1), near(3), near(14)
+        else:
+            x, y, z = rnd.getrandbits(16), rnd.getrandbits(16), rnd.getrandbits(16)
+        k = rnd.randrange(3)
+        x, y, z = (x, y, z)[k:] + (x, y, z)[:k]
+        X.append(x); Y.append(y); Z.append(z)
+    return X, Y, Z
+
+
+def pythagorean(seed, quick):
+    """Integer triples a^2 + b^2 = c^2 with a < b <= 2047 (exact halves) and quadruples a^2 + b^2 + d^2 = c^2, chosen so that the
+    exact hypotenuse c is an integer half (c <= 2048, or even), or lies exactly half way between two halves (c odd in 2049..4095: a
+    tie, to even) - the arguments on which a lost sticky bit or a wrong tie decides the result.  Inputs only."""
+    import math
+    rnd = random.Random(seed * 733 + 2)
+    tri = []
+    for c in list(range(2049, 4096, 2)) + list(range(5, 2049, 1 if not quick else 7)) + list(range(2050, 4096, 2 if not quick else 14)):
+        c2 = c * c
+        a = 1
+        lim = int(c / math.sqrt(2))
+        found = 0
+        for a in range(max(1, c - 2047) if c > 2047 else 1, lim + 1):
+            b2 = c2 - a * a
+            b = math.isqrt(b2)
+            if b * b == b2 and a < b <= 2047:
+                tri.append((a, b, c))
+                found += 1
+                if found >= (2 if c % 2 == 0 or c < 2049 else 6):
+                    break
+    quad = []
+    for _ in range(600 if quick else 3000):
+        c = rnd.randrange(2049, 4096) | 1
+        a = rnd.randrange(1, 2048)
+        n = c * c - a * a
+        found = 0
+        b0 = rnd.randrange(1, 2048)
+        for b in list(range(b0, 2048)) + list(range(1, b0)):
+            d2 = n - b * b
+            if d2 <= 0:
+                continue
+            d = math.isqrt(d2)
+            if d * d == d2 and d <= 2047:
+                quad.append((a, b, d, c))
+                found += 1
+                if found >= 2:
+                    break
+    return tri, quad
+
+
+def _int_half(n):
+    return hg.py2h(float(n))            # n <= 2048: exactly representable
+
+
+def exact_hypot_operands(seed, quick):
+    """(pairs for hypot(x, y), triples for hypot(x, y, z)) built from the integer triples: scaled by powers of two, signs varied,
+    a third argument that is zero, far below (only a sticky contribution), just below, or part of an exact quadruple."""
+    rnd = random.Random(seed * 911 + 4)
+    tri, quad = pythagorean(seed, quick)
+    pairs, X, Y, Z = [], [], [], []
+
+    def scaled(n, k, neg=False):
+        h = _int_half(n)
+        e = ((h >> 10) & 31) + k
+        if (h & 0x7C00) == 0 or e < 1 or e > 30:
+            return None
+        return (h & 0x83FF) | (e << 10) | (0x8000 if neg else 0)
+    for a, b, c in tri:
+        for k in (0, -3, 4, -12) if not quick else (0, rnd.choice([-3, 4, -12])):
+            x, y = scaled(a, k, rnd.random() < 0.3), scaled(b, k, rnd.random() < 0.3)
+            if x is None or y is None:
+                continue
+            pairs.append((x, y)); pairs.append((y, x))
+            ex = ((x >> 10) & 31)
+            zs = [0, 0x8000, 1, 0x03FF, 0x0400]
+            for dz in (11, 12, 13, 14, 15, 16, 18, 22):          # a third term this many binades below x: sticky only
+                if ex - dz >= 1:
+                    zs.append(((ex - dz) << 10) | rnd.choice([0, 1, 0x3FF, rnd.getrandbits(10)]))
+            for z in zs:
+                t = [x, y, z]
+                r = rnd.randrange(3)
+                t = t[r:] + t[:r]
+                X.append(t[0]); Y.append(t[1]); Z.append(t[2])
+    for a, b, d, c in quad:
+        k = rnd.choice([0, 0, -2, 3, -11])
+        t = [scaled(a, k), scaled(b, k, rnd.random() < 0.3), scaled(d, k)]
+        if None in t:
+            continue
+        r = rnd.randrange(3)
+        t = t[r:] + t[:r]
+        X.append(t[0]); Y.append(t[1]); Z.append(t[2])
+        # and one ulp off in one argument: just beside the tie
+        X.append(t[0] + 1); Y.append(t[1]); Z.append(t[2])
+        X.append(t[0]); Y.append(t[1] - 1); Z.append(t[2])
+    return pairs, (X, Y, Z), {"pythagorean_triples": len(tri), "quadruples": len(quad)}
+
+
+def make_jobs(ctx, counts):
     q = ctx.quick
+    sd = ctx.seed
     S = hg.grid(ctx.seed, 400 if q else 1280, salt=9)
     E = exponents()
     jobs = []
+    counts["cases"] = {}
+    for op in ("mod", "add", "cmp"):
+        jobs.append(hg.case_job(ctx, op, counts["cases"], "C09"))
     for i, fs in enumerate(hg.chunks(ROUND, 5)):
         jobs.append(hg.Job("round-%d" % i, [hg.hdr(S=[0])] + hg.unary_rows(fs)))
     for i, fs in enumerate(hg.chunks(TRANS, 9)):
         jobs.append(hg.Job("annexf-%d" % i, [hg.hdr(S=[0])] + hg.unary_rows(fs)))
+    jobs.append(hg.specials_job("specials", BIN + ["hypot_full", "nexttoward"]))
     rows_per_job = len(S) if q else 512
     for op in BIN:
         for i, A in enumerate(hg.chunks(S, rows_per_job)):
@@ -43,6 +169,18 @@ def make_jobs(ctx):
     H = hg.small_grid(ctx.seed, 128 if q else 320, salt=3)
     for i, A in enumerate(hg.chunks(H, len(H) if q else 80)):
         jobs.append(hg.Job("hypotfull-%d" % i, [hg.hdr(S=H)] + hg.bin_rows("hypot_full", A)))
+    # hypot on arguments whose exact result is representable or an exact tie (integer triples and quadruples), with third
+    # arguments that contribute nothing but a sticky bit
+    epairs, (EX, EY, EZ), ecount = exact_hypot_operands(ctx.seed, q)
+    counts.update(ecount)
+    per = 1024
+    erow = [{"k": "tri", "f": "hypot3", "x": EX[i:i + per], "y": EY[i:i + per], "z": EZ[i:i + per]} for i in range(0, len(EX), per)]
+    jobs.append(hg.Job("hypot-exact", [hg.hdr(S=[0])] + hg.pair_rows("hypot_full", epairs) + erow + hg.with_rm(erow[(sd % 3)::3], sd)))
+    # hypot of three arguments, correctly rounded
+    X, Y, Z = hypot3_triples(ctx.seed, q)
+    trow = [{"k": "tri", "f": "hypot3", "x": X[i:i + per], "y": Y[i:i + per], "z": Z[i:i + per]} for i in range(0, len(X), per)]
+    for i, rs in enumerate(hg.chunks(trow, max(1, (len(trow) + (0 if q else 3)) // (1 if q else 4)))):
+        jobs.append(hg.Job("hypot3-%d" % i, [hg.hdr(S=[0])] + rs))
     # ldexp family: halves x exponents
     if q:
         A = S
@@ -58,8 +196,19 @@ def make_jobs(ctx):
         for f in ("ldexp", "scalbn"):
             rows += [{"k": "ld", "f": f, "a": a} for a in S]
         jobs.append(hg.Job("ldexp", rows))
-    counts = {"grid": len(S), "hypot_grid": len(H), "exponents": len(E)}
-    return jobs, counts, S
+    # ---- once more under a directed rounding direction of the calling thread
+    jobs.append(hg.Job("round-rm", [hg.hdr(S=[0])] + hg.with_rm(hg.unary_rows(ROUND)[(sd % 2)::(2 if q else 1)], sd)))
+    jobs.append(hg.Job("annexf-rm", [hg.hdr(S=[0])] + hg.with_rm(hg.unary_rows(TRANS)[(sd % 4)::(8 if q else 3)], sd + 1)))
+    rsub = S[(sd % 4)::(16 if q else 8)] + hg.REQUIRED
+    rows = [hg.hdr(S=S)]
+    for n, op in enumerate(BIN):
+        rows += hg.with_rm(hg.bin_rows(op, rsub), sd + n)
+    rows += hg.with_rm([{"k": "nt", "f": "nexttoward", "a": a} for a in rsub], sd)
+    jobs.append(hg.Job("bin-rm", rows))
+    jobs.append(hg.Job("hypot-rm", [hg.hdr(S=H)] + hg.with_rm(hg.bin_rows("hypot_full", H[(sd % 4)::4]), sd) + hg.with_rm(trow[(sd % 4)::4], sd + 1)))
+    jobs.append(hg.Job("ldexp-rm", [hg.hdr(S=[0], E=E)] + hg.with_rm([{"k": "ld", "f": f, "a": a} for f in ("ldexp", "scalbn", "scalbln") for a in rsub], sd)))
+    counts.update({"grid": len(S), "hypot_grid": len(H), "hypot3_triples": len(X), "exponents": len(E)})
+    return jobs, S
 
 
 def replay(ctx, path):
@@ -70,47 +219,82 @@ def selftest(ctx):
     return hg.selftest(ctx, "C09")
 
 
+ASSUMPTIONS = [
+    "PARTIAL CLAIM: accuracy of the transcendental functions on ordinary arguments is not decidable with TLA+/TLC and is not checked",
+    "HALF_ROUND_STYLE = 1 (the default); HALF_ERRHANDLING_* (exception flags / errno) and HALF_ARITHMETIC_TYPE are not exercised; NaN results compared as 'is a NaN'",
+    "where C leaves a result open (sign of a zero from nextafter, fmax/fmin of +0/-0, lround of inf/NaN, remquo bits above the low three, hypot(x, y, z) with an "
+    "infinite and a NaN argument) every conforming answer is accepted",
+    "atan2 special cases that are multiples of pi/4 are accepted within one ulp of the correctly rounded constant (documented accuracy of atan2)",
+    "rint, nearbyint, lrint, llrint under a directed rounding direction of the calling thread: both the library's documented answer (its own round-to-nearest "
+    "mode) and C's (the current direction) are accepted; the property quantifies over inputs in the default environment"]
+
+
 def run(ctx):
     q = ctx.quick
     law = {}
 
     def laws():
         try:
-            law["r"] = hg.run_laws(ctx, "HalfLaws09_quick.cfg" if q else "HalfLaws09_thorough.cfg", "laws09", workers=4 if q else 6)
+            law["r"] = hg.run_laws(ctx, "HalfLaws09_quick.cfg" if q else "HalfLaws09_thorough.cfg", "laws09", workers=min(core.NCPU, 4 if q else 6))
         except Exception as e:
             law["err"] = e
     th = threading.Thread(target=laws)
+    if os.environ.get("VERIF_HALF_SKIP_LAWS"):      # development aid (mutation experiments on a loaded machine)
+        ctx.notes["laws_skipped"] = "PARTIAL RUN: VERIF_HALF_SKIP_LAWS set, the oracle's law set was not re-checked in this run"
+        th = threading.Thread(target=lambda: None)
     th.start()
 
-    sw, hw = hg.build_drivers(ctx)
-    jobs, counts, S = make_jobs(ctx)
-    ctx.log("grid |S|=%d, hypot sub-grid %d, %d exponents; %d table jobs" % (counts["grid"], counts["hypot_grid"], counts["exponents"], len(jobs)))
-    summaries = hg.validate_jobs(ctx, jobs, sw, hw, parallel=6 if q else 7, workers=2, what="C09")
+    try:
+        drivers = hg.build_drivers(ctx, "C09")
+    except Exception:
+        th.join()
+        raise
+    if drivers is None:
+        th.join()
+        return core.finish(ctx, "exploration", rule="signature probe only: the driver does not build against this tree", assumptions=ASSUMPTIONS)
+    counts = {}
+    jobs, S = make_jobs(ctx, counts)
+    ctx.log("grid |S|=%d, hypot sub-grid %d, %d hypot3 triples, %d exponents; %d table jobs; builds: %s" % (
+        counts["grid"], counts["hypot_grid"], counts["hypot3_triples"], counts["exponents"], len(jobs), ", ".join(t for t, _, _ in drivers.items)))
+    summaries = hg.validate_jobs(ctx, jobs, drivers, parallel=6 if q else 7, workers=2, what="C09")
     th.join()
     if "err" in law:
         raise law["err"]
-    nident = sum(1 for s in summaries if s["f16c_identical"])
-    ctx.notes["tables"] = [{k: s[k] for k in ("job", "evaluations", "f16c_identical")} for s in summaries]
+    nident = sum(1 for s in summaries if s["identical"])
+    ctx.notes["tables"] = [{k: s[k] for k in ("job", "evaluations", "identical", "validated_tables")} for s in summaries]
     ctx.notes["inputs"] = counts
-    ctx.notes["not_decided"] = ("correct rounding / 1-ulp accuracy of exp exp2 expm1 log log10 log2 log1p cbrt hypot(3 args) sin cos tan sincos asin acos atan "
+    ctx.notes["not_decided"] = ("correct rounding / 1-ulp accuracy of exp exp2 expm1 log log10 log2 log1p sin cos tan sincos asin acos atan "
                                 "atan2 sinh cosh tanh asinh acosh atanh pow erf erfc lgamma tgamma on ordinary arguments: only their Annex F special cases and "
                                 "exactly representable results are checked")
     # evaluations whose specification is a definite value (for the transcendental functions only special arguments are)
-    trans_rows = sum(s["evaluations"] for s in summaries if s["job"].startswith("annexf") or s["job"].split("-")[0] in ("atan2", "pow", "hypot"))
-    ctx.cov["distinct_nontrivial"] = ctx.cov["evaluations"] - trans_rows
+    trans_rows = sum(s["evaluations"] * max(1, s["validated_tables"]) for s in summaries if s["job"].startswith("annexf") or s["job"].split("-")[0] in ("atan2", "pow", "hypot"))
     ctx.notes["evaluations_transcendental_tables"] = trans_rows
-    ctx.sample({"job": jobs[0].name, "request": [str(r)[:160] for r in jobs[0].rows[:3]]})
+    ncases = {k: v["cases"] for k, v in counts.get("cases", {}).items()}
+    # distinct and non-trivial: every (function, argument) of the exhaustive tables of the exactly specified unary functions is a
+    # distinct input with a definite specified value; for the binary functions the distinct cases of the oracle's case analysis
+    # that were witnessed.  Grid pairs, repetitions under another rounding direction or build and the transcendental tables
+    # (mostly "no exact requirement") are not counted.
+    exhaustive_unary = sum(s["evaluations"] for s in summaries if s["job"].startswith("round-") and s["job"] != "round-rm")
+    ctx.cov["distinct_nontrivial"] = exhaustive_unary + sum(ncases.values())
+    ctx.notes["distinct_nontrivial_is"] = "%d (function, argument) pairs of the exhaustive unary tables + %d witnessed cases of the case analysis" % (exhaustive_unary, sum(ncases.values()))
+    ctx.notes["cases_witnessed"] = ("distinct cases of the oracle's case analysis (specs/HalfCases.tla) reached by TLC's bounded search, one executed witness pair each: %s "
+                                    "(mod: fmod/remainder/remquo; add: fdim; cmp: fmax/fmin/nextafter/fdim)" % ncases)
+    ctx.sample({"job": jobs[3].name, "request": [str(r)[:160] for r in jobs[3].rows[:3]]})
     ctx.sample({"grid_head": S[:24]})
-    ctx.log("validated %d evaluations in %d tables (%d byte-identical with/without F16C)" % (ctx.cov["evaluations"], len(summaries), nident))
+    ctx.log("validated %d evaluations in %d tables (%d byte-identical across the %d builds); cases witnessed: %s" % (
+        ctx.cov["evaluations"], len(summaries), nident, len(drivers.items), ncases))
     return core.finish(
         ctx, "exploration",
         rule="TLA+ oracle Half.tla evaluated by TLC on every recorded evaluation (one state each). Exhaustive over all 65 536 halves for ceil floor trunc "
-             "round rint nearbyint lround lrint llround llrint frexp modf ilogb logb and for the Annex F special cases / exactly representable results of "
-             "25 transcendental functions; fmod remainder remquo fdim fmax fmin nextafter nexttoward and the Annex F cases of atan2 pow hypot on S x S with "
-             "|S|=%d; hypot correctly rounded on a %d x %d sub-grid; ldexp/scalbn/scalbln on %s x %d exponents (-50..50 and extremes)." % (
-                 counts["grid"], counts["hypot_grid"], counts["hypot_grid"], "S" if q else "all 65 536 halves (scalbln; S for the two aliases)", counts["exponents"]),
-        assumptions=["PARTIAL CLAIM: accuracy of the transcendental functions on ordinary arguments is not decidable with TLA+/TLC and is not checked",
-                     "default rounding mode only; exception flags are not observed; NaN results compared as 'is a NaN'",
-                     "where C leaves a result open (sign of a zero from nextafter, fmax/fmin of +0/-0, lround of inf/NaN, remquo bits above the low three) every conforming answer is accepted",
-                     "atan2 special cases that are multiples of pi/4 are accepted within one ulp of the correctly rounded constant (documented accuracy of atan2)"],
+             "round rint nearbyint lround lrint llround llrint frexp modf ilogb logb, for cbrt (correctly rounded) and for the Annex F special cases / exactly "
+             "representable results of 25 transcendental functions; fmod remainder remquo fdim fmax fmin nextafter nexttoward and the Annex F cases of atan2 pow "
+             "hypot on S x S with |S|=%d, on the 28 special operands among themselves and on one witness pair per case of the oracle's case analysis (%s); hypot "
+             "correctly rounded on a %d x %d sub-grid and hypot(x, y, z) on %d triples; ldexp/scalbn/scalbln on %s x %d exponents (-50..50 and extremes). Every "
+             "group is evaluated a second time under upward / downward / toward-zero rounding of the calling thread. Driver builds recorded and compared: %s. "
+             "distinct_nontrivial counts the (function, argument) pairs of the exhaustive unary tables of the 15 exactly specified functions plus the "
+             "distinct cases of the case analysis (HalfCases.tla key: operand classes, exponent distance, remainder zero / below / exactly / above half "
+             "the divisor, quotient parity, result class ...) for which TLC found a witness pair that was then executed." % (
+                 counts["grid"], ncases, counts["hypot_grid"], counts["hypot_grid"], counts["hypot3_triples"],
+                 "S" if q else "all 65 536 halves (scalbln; S for the two aliases)", counts["exponents"], "; ".join(d for _, _, d in drivers.items)),
+        assumptions=ASSUMPTIONS,
         exhaustive=False)
